@@ -49,7 +49,7 @@ def judge(rep, scn, out):
 def run_shard(rep):
     from vlab.props.dagprop import drive
     cfg = META['tiers'][rep.tier]
-    rep.require('release_checks', 3000)
+    rep.require('release_checks', 2000)
     rep.require('close_probes', 300)
     drive(rep, 'C17', make_scn=make_scn, judge=judge, n_sim=cfg['n_sim'], n_real=cfg['n_real'])
 
